@@ -196,6 +196,25 @@ def guards_of(bodies, S, callee_pat):
     return out
 
 
+def bypass_of(bodies, S, callee_pat):
+    """[(atom name of the call, sorted list of the informative non-rejecting tests after which the call can still be skipped)]: the `byp` sets of
+    the calls matching `callee_pat`, for a rule that freezes them for one particular step"""
+    at = atoms(bodies, S)
+    names = set()
+    for b in bodies:
+        for c in b.calls:
+            if re.search(callee_pat, c.res or c.callee) or re.search(callee_pat, c.callee):
+                n = atom_call_name(c, S)
+                if n:
+                    names.add(n)
+    out = []
+    for g in at["byp"]:
+        nm, _, gs = g.partition(" <= ")
+        if nm in names:
+            out.append((nm, json.loads(gs)))
+    return out
+
+
 def atoms(bodies, S=None):
     """{category: set(atom strings)} of one root function with its closures"""
     K.CANON_TRY = True
